@@ -2,6 +2,8 @@
    "num/den" (reduced) and parsed by the harness with fractions.Fraction. *)
 From Coq Require Export QArith.
 From Verif Require Import Prelude Model.Fiber.
+(* built together with this file (no Import: Num's '#' notation would clash with Q's): the binary64 runners *)
+From Verif Require Run.C05F.
 Open Scope Q_scope.
 
 Definition qs (q : Q) : string :=
